@@ -44,15 +44,19 @@ def layouts(tier):
         for v in range(nv):
             control["val%d" % v] = [cells[i * nv + v] for i in range(nr)]
         out.append({"control": control, "record_keys": list(rk), "control_table_keys": keycols})
-    if tier == "quick":
-        return out
-    # thorough: also key columns listed after the value columns, and a non-contiguous cell arrangement
+    # key columns that are not the leading columns of the control table (C17-r4m2): listed after the value
+    # columns, and between two value columns; quick takes this for the two-row contiguous layouts only
     extra = []
     for s in out:
         c = s["control"]
+        if tier == "quick" and (len(next(iter(c.values()))) != 2 or c["val0"][0] != "c0"):
+            continue
         vals = {k: v for k, v in c.items() if k not in s["control_table_keys"]}
         keys = {k: v for k, v in c.items() if k in s["control_table_keys"]}
         extra.append({"control": dict(list(vals.items()) + list(keys.items())), "record_keys": s["record_keys"], "control_table_keys": s["control_table_keys"]})
+        if len(vals) == 2:
+            (v0, v1) = list(vals.items())
+            extra.append({"control": dict([v0] + list(keys.items()) + [v1]), "record_keys": s["record_keys"], "control_table_keys": s["control_table_keys"]})
     return out + extra
 
 
